@@ -542,3 +542,42 @@ def c16_time(text, config):
             return False, f'{len(text)} chars parsed in {dt:.2f} s'
     shown = ['>10' if t is None else round(t, 2) for t in times]
     return len(text) <= MAXLEN + 60, f'{len(text)}-character description {text[:80]!r}... took {shown} s (threshold {THRESHOLD} s)'
+
+
+# ------------------------------------------------------------------ C03
+@replay('c03_plss')
+def c03_plss(text, config):
+    import pytrs
+    try:
+        d = pytrs.PLSSDesc(text, config=config)
+        d2 = pytrs.PLSSDesc(text, config=config, parse_qq=True)
+    except Exception as e:  # noqa
+        return True, f'PLSSDesc({text!r}, config={config!r}) raised {type(e).__name__}: {e}'
+    return len(d.tracts) < 1 or len(d2.tracts) < 1, f'{len(d.tracts)} tracts'
+
+
+@replay('c03_tract')
+def c03_tract(text, config):
+    import pytrs
+    try:
+        t = pytrs.Tract(text, trs='154n97w14', config=config, parse_qq=True)
+        t.parse()
+        t.preprocess(commit=True)
+        t.ilots
+    except Exception as e:  # noqa
+        return True, f'Tract({text!r}, config={config!r}) raised {type(e).__name__}: {e}'
+    return False, f'lots {t.lots} qqs {t.qqs}'
+
+
+@replay('c03_badarg')
+def c03_badarg(i):
+    # mirrors props/c03.py:call_bad without importing z3/CrossHair
+    import importlib.util
+    import os
+    src = open(os.path.join(os.path.dirname(__file__), 'c03.py')).read()
+    ns = {}
+    start = src.index('BAD_ARGS = (')
+    end = src.index('def ob_args(ob):')
+    exec(src[start:end], ns)
+    why = ns['call_bad'](i)
+    return why is not None, f'{ns["BAD_ARGS"][i][:3]}: {why}'
